@@ -1,6 +1,7 @@
 import Logrange.Proofs.TIndexId
 import Logrange.Proofs.Quote
 import Logrange.Proofs.TIndexRun
+import Logrange.Proofs.TIndexGet
 /-!
 # C06 — Partition identity is tag-set equality; FROM selects exactly the matches
 
@@ -14,7 +15,7 @@ Selection (`from_tags`, `from_expr`, `from_empty`, `tags_eval_correct`) holds fo
 -/
 namespace Logrange.Props.C06
 open Go Logrange.KV Logrange.Tags Logrange.TagsEval Logrange.TIndexId Logrange.Proofs.KV Logrange.Proofs.Tags
-  Logrange.Proofs.TagsEval Logrange.Proofs.TIndexId Logrange.Proofs.TIndexRun
+  Logrange.Proofs.TagsEval Logrange.Proofs.TIndexId Logrange.Proofs.TIndexRun Logrange.Proofs.TIndexGet
 
 /-- full statement: whatever the index holds, two accepted non-empty tag texts get the same partition iff they
 denote the same set (false today, see `cex_two_sets_one_partition`) -/
@@ -208,5 +209,37 @@ example : SafeOps [([97,61,49], true), ([97], true), ([123,98,61,50,125], false)
       have h : parse [123,98,61,50,125] = some [([98],[50])] := by decide +kernel
       rw [h] at hm; exact (Option.some.inj hm).symm
     subst this; decide +kernel
+
+/-! ## Look-up without creation, refused texts, `Set.Equals` -/
+
+/-- `GetJournal` (look-up without creation) never changes the index -/
+theorem get_no_change (s : St) (raw : Bytes) : (getOrCreate s raw false).1 = s :=
+  Logrange.Proofs.TIndexGet.get_no_change s raw
+
+/-- **`GetJournal` finds exactly the partition of the set**: `notFound` iff no partition holds that set, otherwise the id
+of the one that does (Safe index, Safe non-empty set, any spelling). -/
+theorem get_journal_spec (s : St) (hinv : TInv s) (hsafe : SafeSt s) (t : Bytes) (m : Map) (hp : parse t = some m)
+    (hne : m ≠ []) (hs : safe m = true) :
+    ((getOrCreate s t false).2 = .notFound ∧ ∀ e ∈ s.tmap, e.2.tags ≠ m) ∨
+    (∃ e ∈ s.tmap, e.2.tags = m ∧ (getOrCreate s t false).2 = .ok e.2.src) :=
+  Logrange.Proofs.TIndexGet.get_journal_spec s hinv hsafe t m hp hne hs
+
+/-- a text the parser rejects (that is not a stored key) never names a partition, and changes nothing -/
+theorem rejected_text_refused (s : St) (raw : Bytes) (create : Bool) (h1 : lookup s.tmap raw = none)
+    (hp : parse raw = none) : getOrCreate s raw create = (s, .badTags) :=
+  Logrange.Proofs.TIndexGet.rejected_text_refused s raw create h1 hp
+
+/-- the empty tag set never names a partition -/
+theorem empty_set_refused (s : St) (raw : Bytes) (create : Bool) (h1 : lookup s.tmap raw = none)
+    (hp : parse raw = some []) : getOrCreate s raw create = (s, .empty) :=
+  Logrange.Proofs.TIndexGet.empty_set_refused s raw create h1 hp
+
+/-- `Set.Equals` compares lines: on Safe sets that is set equality -/
+theorem equals_iff_same_set (m1 m2 : Map) (h1 : Map.WF m1) (h2 : Map.WF m2) (s1 : safe m1 = true) (s2 : safe m2 = true) :
+    line m1 = line m2 ↔ m1 = m2 :=
+  Logrange.Proofs.TIndexGet.equals_iff_same_set m1 m2 h1 h2 s1 s2
+
+example : (getOrCreate (run {} [([97,61,49], true)]) [123,97,61,34,49,34,125] false).2 = .ok 0 ∧
+    (getOrCreate (run {} [([97,61,49], true)]) [97,61,50] false).2 = .notFound := by decide +kernel
 
 end Logrange.Props.C06
